@@ -12,12 +12,22 @@ Qed.
 
 Lemma sec_ok_found cl i s : sec_ok cl i s = true -> exists k, find_client cl i = Some k /\ c_secret k = s.
 Proof.
-  unfold sec_ok. intro H. apply andb_true_iff in H as [_ H]. destruct (find_client cl i) as [k|]; [|discriminate].
+  unfold sec_ok, store_accepts. intro H. apply andb_true_iff in H as [_ H]. destruct (find_client cl i) as [k|]; [|discriminate].
   apply String.eqb_eq in H. eauto.
 Qed.
 
 Lemma sec_ok_nonempty cl i s : sec_ok cl i s = true -> nonempty s = true.
 Proof. unfold sec_ok. intro H. now apply andb_true_iff in H as [H _]. Qed.
+
+(* the helper's guard + the storage's plain comparison = the caller proved a registered,
+   non-empty secret - for every client table, in particular those where the storage holds the
+   empty string for clients registered without a secret *)
+Lemma sec_ok_proved cl i s : sec_ok cl i s = proved_secret cl i s.
+Proof.
+  unfold sec_ok, store_accepts, proved_secret. destruct (find_client cl i) as [k|]; [|apply andb_false_r].
+  destruct (String.eqb (c_secret k) s) eqn:E; [|now rewrite !andb_false_r].
+  apply String.eqb_eq in E. now rewrite E.
+Qed.
 
 Lemma nonempty_false s : nonempty s = false -> s = "".
 Proof. unfold nonempty. intro H. apply negb_false_iff in H. now apply String.eqb_eq. Qed.
@@ -41,7 +51,7 @@ Qed.
 
 Lemma read_at_as_access t id sub : read_at t = Some (id, sub) -> as_access t = id.
 Proof.
-  destruct t as [i s| |i sg e j s z|i]; cbn; try discriminate.
+  destruct t as [i s| |i sg e j s z|i|c0 s0]; cbn; try discriminate.
   - now intros [= -> _].
   - destruct i, sg, e; cbn; try discriminate. now intros [= -> _].
 Qed.
@@ -57,11 +67,12 @@ Qed.
 Lemma revoke_target_denotes g t h : revoke_target g t h = denotes t.
 Proof.
   unfold revoke_target, denotes.
-  destruct t as [i s| |i sg e j s z|i]; cbn.
+  destruct t as [i s| |i sg e j s z|i|c0 s0]; cbn.
   - now destruct h.
   - now destruct h.
   - destruct i, sg, e; cbn; now destruct h.
   - destruct h; [reflexivity|]. destruct i; try reflexivity. now destruct (find_rt n (rtoks g)).
+  - now destruct h.
 Qed.
 
 Lemma revoke_token_g_revoke g id caller g' : revoke_token g id caller = Some g' -> g' = g_revoke g id.
@@ -181,12 +192,12 @@ Lemma proper_sec_leg cl b i s : proper_sec cl b i s = true -> leg_secret_auth cl
 Proof.
   unfold proper_sec, leg_secret_auth. destruct (find_client cl i) as [k|] eqn:F; [|discriminate]. intro H.
   apply andb_true_iff in H as [H1 H2]. rewrite H1.
-  destruct (c_auth k); try discriminate; unfold sec_ok; rewrite F; rewrite H2; discriminate.
+  destruct (c_auth k); try discriminate; unfold sec_ok, store_accepts; rewrite F; rewrite H2; discriminate.
 Qed.
 
 Lemma proper_sec_basic cl i s : proper_sec cl false i s = true -> sec_ok cl i s = true.
 Proof.
-  unfold proper_sec, sec_ok. destruct (find_client cl i) as [k|] eqn:F; [|discriminate]. intro H.
+  unfold proper_sec, sec_ok, store_accepts. destruct (find_client cl i) as [k|] eqn:F; [|discriminate]. intro H.
   apply andb_true_iff in H as [H1 H2]. destruct (c_auth k); try discriminate; exact H2.
 Qed.
 
@@ -203,7 +214,7 @@ Proof.
       apply andb_true_iff in P as [N P]. rewrite N.
       destruct (nonempty s) eqn:NS.
       * assert (S : sec_ok cl i s = true).
-        { unfold sec_ok. rewrite NS, F. unfold nonempty in NS.
+        { unfold sec_ok, store_accepts. rewrite NS, F. unfold nonempty in NS.
           destruct (c_auth k); try discriminate; cbn in P; try exact P.
           apply orb_true_iff in P as [P|P]; [|exact P].
           apply String.eqb_eq in P. subst s. discriminate. }
@@ -226,10 +237,12 @@ Lemma auth_intro_ok cl r c caller : auth_intro cl r c = Some caller ->
 Proof.
   unfold auth_intro, cred_id. destruct r.
   - destruct c as [|i s|i s|i s f|[x|] f]; cbn; try discriminate;
-      try (destruct (sec_ok cl i s) eqn:E; [|discriminate]); intros [= <-]; now split.
+      try (destruct (sec_ok cl i s) eqn:E; [|discriminate]; rewrite sec_ok_proved in E); intros [= <-]; now split.
   - unfold auth_intro_leg. destruct c as [|i s|i s|i s f|[x|] f]; cbn; try discriminate;
-      try (destruct (nonempty i && nonempty s && sec_ok cl i s) eqn:E; [|discriminate];
-           apply andb_true_iff in E as [_ E]); intros [= <-]; now split.
+      try (destruct (nonempty i && nonempty s && store_accepts cl i s) eqn:E; [|discriminate];
+           apply andb_true_iff in E as [E E2]; apply andb_true_iff in E as [_ E1];
+           assert (E : sec_ok cl i s = true) by (unfold sec_ok; now rewrite E1, E2);
+           rewrite sec_ok_proved in E); intros [= <-]; now split.
 Qed.
 
 Lemma client_err_leg_shape cl c : exists st, client_err_leg cl c = OErr st true.
@@ -255,31 +268,53 @@ Proof. destruct r; [now exists S401|apply client_err_leg_shape]. Qed.
 
 (* ---------------------------------------------------------------- token exchange *)
 
-Lemma read_x_live_subj g typ t id sub :
-  read_x g typ t = Some (id, sub) -> x_live g typ id = true -> confused typ t = false ->
-  subj_live g typ t = true.
+Lemma read_native_live_own g typ t id sub :
+  read_native g typ t = Some (id, sub) -> x_live g typ id = true -> confused typ t = false ->
+  own_live g typ t = true.
 Proof.
   destruct typ; cbn; try discriminate.
   - intros R L _. destruct (live_tok g id) as [tr|] eqn:E; [|discriminate].
     apply live_tok_inv in E as (n & -> & F & X). apply read_at_as_access in R. rewrite R.
     unfold g_has_live. now rewrite F, X.
-  - destruct t as [i s| |i sg e j s z|i]; cbn; try discriminate.
+  - destruct t as [i s| |i sg e j s z|i|c s]; cbn; try discriminate.
     destruct i as [n|m| |]; try discriminate.
     destruct (find_rt m (rtoks g)); [reflexivity|discriminate].
-  - destruct t as [i s| |i sg e j s z|i]; cbn; try discriminate.
+  - destruct t as [i s| |i sg e j s z|i|c s]; cbn; try discriminate.
     destruct i, sg, e; cbn; try discriminate. intros _ _. now destruct j.
 Qed.
 
-Lemma read_x_named g typ t sub :
-  read_x g typ t = Some (NoId, sub) -> nonempty sub = false -> confused typ t = true.
+(* what the verifier storage contributes: a third-party token, in the role its issuer vouches for *)
+Lemma read_x_inv g a typ t id sub : read_x g a typ t = Some (id, sub) ->
+  read_native g typ t = Some (id, sub) \/
+  (read_native g typ t = None /\ id = Junk /\ supported typ = true /\ p_verifier (policy g) = true /\
+   exists c, t = Ext c sub /\ ext_accepts c a = true).
 Proof.
-  intros R N. apply nonempty_false in N; subst sub.
+  unfold read_x. destruct (read_native g typ t) as [x|]; [intros [= ->]; now left|].
+  destruct (supported typ) eqn:S; cbn [andb]; [|discriminate].
+  destruct (p_verifier (policy g)) eqn:V; [|discriminate].
+  destruct t as [i s| |i sg e j s z|i|c s]; try discriminate.
+  destruct (ext_accepts c a) eqn:E; [|discriminate]. intros [= <- <-]. right. repeat split; eauto.
+Qed.
+
+Lemma read_x_live_subj g a typ t id sub :
+  read_x g a typ t = Some (id, sub) -> x_live g typ id = true -> confused typ t = false ->
+  subj_live a g typ t = true.
+Proof.
+  intros R L U. unfold subj_live. apply read_x_inv in R as [R|(_ & -> & S & V & c & -> & E)].
+  - rewrite (read_native_live_own _ _ _ _ _ R L U). reflexivity.
+  - apply orb_true_iff. right. destruct typ; try discriminate; cbn in *; try discriminate; now rewrite V, E.
+Qed.
+
+Lemma read_x_named g a typ t sub :
+  read_x g a typ t = Some (NoId, sub) -> nonempty sub = false -> confused typ t = true.
+Proof.
+  intros R N. apply read_x_inv in R as [R|(_ & X & _)]; [|discriminate]. apply nonempty_false in N; subst sub.
   destruct typ; cbn in *; try discriminate.
-  - destruct t as [i s| |i sg e j s z|i]; cbn in *; try discriminate.
+  - destruct t as [i s| |i sg e j s z|i|c s]; cbn in *; try discriminate.
     + now injection R as -> ->.
     + destruct i, sg, e; cbn in *; try discriminate. now injection R as -> ->.
   - destruct (raw_id t); try discriminate. destruct (find_rt n (rtoks g)); discriminate.
-  - destruct t as [i s| |i sg e j s z|i]; try discriminate.
+  - destruct t as [i s| |i sg e j s z|i|c s]; try discriminate.
     destruct (i && sg && negb e); discriminate.
 Qed.
 
@@ -290,11 +325,11 @@ Definition exch_auth (cl : list client) (r : router) (c : cred) : option client 
 Lemma exchange_ok_inv cl r s c subj styp actor req scopes aud s' i x rt lv sc sto :
   exchange cl r s c subj styp actor req scopes aud = (s', OExch i x rt lv sc sto) ->
   exists k id ssub,
-    exch_auth cl r c = Some k /\ read_x (fst s) styp subj = Some (id, ssub) /\ x_live (fst s) styp id = true /\
+    exch_auth cl r c = Some k /\ read_x (fst s) false styp subj = Some (id, ssub) /\ x_live (fst s) styp id = true /\
     string_in "veto" scopes = false /\ sc = decided_scopes (policy (fst s)) scopes /\
     match actor with
     | None => True
-    | Some (ta, atyp) => exists aid asub, read_x (fst s) atyp ta = Some (aid, asub) /\
+    | Some (ta, atyp) => exists aid asub, read_x (fst s) true atyp ta = Some (aid, asub) /\
         ((nonempty asub || match aid with NoId => false | _ => true end) = false \/ x_live (fst s) atyp aid = true)
     end.
 Proof.
@@ -303,10 +338,10 @@ Proof.
   fold (exch_auth cl r c) (exch_err cl r c). destruct (exch_auth cl r c) as [k|];
     [|destruct (exch_err_shape cl r c) as [st ->]; discriminate].
   destruct (c_exchange k) eqn:GX; cbn [negb]; [|discriminate].
-  destruct (read_x g styp subj) as [[id ssub]|] eqn:RS; [|destruct req; discriminate].
+  destruct (read_x g false styp subj) as [[id ssub]|] eqn:RS; [|destruct req; discriminate].
   set (A := match actor with
             | None => Some (NoId, "", TAbsent)
-            | Some (ta, atyp) => match read_x g atyp ta with Some (aid, asub) => Some (aid, asub, atyp) | None => None end
+            | Some (ta, atyp) => match read_x g true atyp ta with Some (aid, asub) => Some (aid, asub, atyp) | None => None end
             end).
   destruct A as [[[aid asub] atyp']|] eqn:EA; [|destruct req; discriminate].
   destruct (x_live g styp id) eqn:LS; cbn [negb]; [|destruct req, r; discriminate].
@@ -319,7 +354,7 @@ Proof.
       match type of H with context [effective_type ?p ?q] => destruct (effective_type p q) end;
       try discriminate; now injection H as _ _ _ _ _ <- _.
   - subst A. destruct actor as [[ta atyp]|]; [|exact I].
-    destruct (read_x g atyp ta) as [[aid' asub']|]; [|discriminate].
+    destruct (read_x g true atyp ta) as [[aid' asub']|]; [|discriminate].
     injection EA as -> -> ->. exists aid, asub. split; [reflexivity|].
     apply andb_false_iff in LA as [LA|LA]; [now left|right]. now apply negb_false_iff in LA.
 Qed.
@@ -350,7 +385,7 @@ Proof.
       - destruct (find_client cl c0) as [k|] eqn:Fk; [|destruct r; reflexivity].
         cbn. now rewrite (find_client_id _ _ _ Fk).
       - cbn. now rewrite (nonempty_false _ N). }
-    destruct hint as [[i s| |i sg e j s z|i]|]; try reflexivity.
+    destruct hint as [[i s| |i sg e j s z|i|c0 s0]|]; try reflexivity.
     + destruct i, sg; cbn [andb]; try reflexivity.
       destruct (nonempty cid && negb (String.eqb cid z)); [reflexivity|].
       specialize (F s z (or_intror I) _ eq_refl).
@@ -412,12 +447,12 @@ Proof.
     destruct x as [| | | | |i xt rt lv sc sto|st b|]; try (exfalso; unfold exchange, client_err_leg in E; leaves E; discriminate).
     + apply exchange_ok_inv in E as (k & id & ssub & _ & RS & LS & _ & _ & AC). cbn [fst] in *.
       cbn in U. apply andb_true_iff in U as [U1 U2]. apply negb_true_iff in U1.
-      cbn. rewrite (read_x_live_subj _ _ _ _ _ RS LS U1). cbn.
+      cbn. rewrite (read_x_live_subj _ _ _ _ _ _ RS LS U1). cbn.
       destruct actor as [[ta atyp]|]; [|reflexivity]. cbn. apply negb_true_iff in U2.
       destruct AC as (aid & asub & RA & [N|LA]).
       * apply orb_false_iff in N as [N1 N2]. destruct aid; try discriminate.
-        rewrite (read_x_named _ _ _ _ RA N1) in U2. discriminate.
-      * exact (read_x_live_subj _ _ _ _ _ RA LA U2).
+        rewrite (read_x_named _ _ _ _ _ RA N1) in U2. discriminate.
+      * exact (read_x_live_subj _ _ _ _ _ _ RA LA U2).
     + reflexivity.
 Qed.
 
@@ -439,7 +474,7 @@ Proof. intros [cl pol ops] U. exact (spec_run_model cl (located ops) (init pol) 
 (* Known finding Fxx-C08-1: a revoked JWT access token, declared as id_token, is accepted as
    exchange subject (the faithful model of the code says so). *)
 Definition refuting_clients := [Client "web" "web-secret" AMBasic false false true true; Client "web2" "web2-secret" AMPost true false true true].
-Definition refstore_policy := TEPolicy true None None false.
+Definition refstore_policy := TEPolicy true None None false false.
 Definition refuting_history :=
   Hist refuting_clients refstore_policy
     [(0, true, Issue Prov "web2" "bob" ["openid"]);
@@ -477,6 +512,55 @@ Proof.
   intros [= <-]. exists n, tr. repeat split; auto. destruct (string_in "openid" (tr_scopes tr)); auto.
 Qed.
 
+(* who gets active:true, spelled out: the caller presented exactly the non-empty secret its client
+   is registered with, or an assertion that verified - never no credential, a client_id alone,
+   an empty secret (left out, sent empty, or in a Basic header) *)
+Definition caller_proved (cl : list client) (c : cred) : Prop :=
+  match c with
+  | NoCred => False
+  | Basic i s | Post i s | Both i s _ =>
+      s <> "" /\ exists k, find_client cl i = Some k /\ c_secret k = s
+  | Assertion who _ => exists x, who = Some x
+  end.
+
+Lemma authenticated_proved cl c : authenticated cl c = true -> caller_proved cl c.
+Proof.
+  assert (P : forall i s, proved_secret cl i s = true -> s <> "" /\ exists k, find_client cl i = Some k /\ c_secret k = s).
+  { intros i s. unfold proved_secret. destruct (find_client cl i) as [k|]; [|discriminate].
+    intro H. apply andb_true_iff in H as [N E]. apply String.eqb_eq in E. subst s. split; [|eauto].
+    intro Z. rewrite Z in N. discriminate. }
+  destruct c as [|i s|i s|i s f|[x|] f]; cbn; try discriminate; auto. eauto.
+Qed.
+
+Lemma introspect_caller_proved cl r g c t sub client sc b :
+  introspect cl r g c t = OIntro true sub client sc b -> caller_proved cl c.
+Proof.
+  unfold introspect. fold (auth_intro cl r c).
+  destruct (auth_intro cl r c) as [caller|] eqn:A; [|destruct r; discriminate].
+  apply auth_intro_ok in A as [A _]. intros _. now apply authenticated_proved.
+Qed.
+
+(* in particular for storages that accept the empty secret of a secret-less client: naming that
+   client without a secret never yields a positive answer, on either router *)
+Lemma secretless_never_introspects cl r g c t sub client sc b :
+  snd (cred_pair c) = "" -> (match c with Assertion _ _ => False | _ => True end) ->
+  introspect cl r g c t <> OIntro true sub client sc b.
+Proof.
+  intros E NA H. apply introspect_caller_proved in H.
+  destruct c as [|i s|i s|i s f|w f]; cbn in *; try contradiction; destruct H as [H _]; now apply H.
+Qed.
+
+(* what the storage accepts is not by itself a proof of identity: there are client tables
+   (the example storage's: public clients stored with an empty secret) where the storage says
+   yes to a request that proves nothing - the guards in front of it are what the theorems need *)
+Lemma storage_acceptance_is_not_proof :
+  exists cl id, store_accepts cl id "" = true /\ authenticated cl (Basic id "") = false /\
+    forall r g t, exists st oa, introspect cl r g (Basic id "") t = OErr st oa.
+Proof.
+  exists [Client "spa" "" AMNone true false true true], "spa". repeat split.
+  intros r g t. destruct r; cbn; eauto.
+Qed.
+
 Lemma introspect_live cl r g c t sub client sc b : introspect cl r g c t = OIntro true sub client sc b ->
   authenticated cl c = true /\
   exists n tr, as_access t = AT n /\ live_in g n tr /\ string_in (cred_id c) (tr_aud tr) = true /\
@@ -505,7 +589,7 @@ Qed.
 Lemma exchange_live cl r s c subj styp actor req scopes aud s' i x rt lv sc sto :
   op_unconfused (Exchange r c subj styp actor req scopes aud) = true ->
   exchange cl r s c subj styp actor req scopes aud = (s', OExch i x rt lv sc sto) ->
-  subj_live (fst s) styp subj = true /\ actor_live (fst s) actor = true.
+  subj_live false (fst s) styp subj = true /\ actor_live (fst s) actor = true.
 Proof.
   intros U E. pose proof (check_step cl s (Exchange r c subj styp actor req scopes aud) U) as C.
   cbn [step] in C. rewrite E in C. cbn in C. now apply andb_true_iff in C.
@@ -548,7 +632,9 @@ Proof.
   - intros r s c actor req scopes aud s' i x rt lv sc sto <- H.
     apply exchange_ok_inv in H as (k & id & ssub & _ & RS & LS & _). cbn in RS, LS.
     destruct (live_tok (fst s) id) as [tr|] eqn:L; [|discriminate].
-    apply live_tok_inv in L as (m & -> & F & X). apply read_at_as_access in RS. rewrite A in RS. injection RS as <-.
+    apply live_tok_inv in L as (m & -> & F & X).
+    apply read_x_inv in RS as [RS|(_ & RS & _)]; [|discriminate]. cbn in RS.
+    apply read_at_as_access in RS. rewrite A in RS. injection RS as <-.
     exact (D tr (conj F X)).
 Qed.
 
@@ -682,7 +768,7 @@ Qed.
 Lemma exchange_live_refuted :
   exists cl s r c subj styp actor req scopes aud,
     (exists s' i x rt lv sc sto, exchange cl r s c subj styp actor req scopes aud = (s', OExch i x rt lv sc sto)) /\
-    subj_live (fst s) styp subj = false.
+    subj_live false (fst s) styp subj = false.
 Proof.
   exists refuting_clients,
     (state_after refuting_clients (init refstore_policy)
